@@ -580,11 +580,10 @@ func c16dom(d *simple.Def, rv reflect.Value) bool {
 				return false
 			}
 		}
-		for _, m := range d.Enum {
-			if f, ok := m.(float64); ok && !c16repr(k, f) {
-				return false
-			}
-		}
+		// enum members need NOT be representable in the Go type of the value: membership is decided on
+		// the numbers (an int 0 is not a member of [0.5, 2]); the restriction that used to stand here
+		// dated from before the enum conversions were repaired (fix 1ec66fe) and hid a wrong
+		// direction of conversion
 		return true
 	case k == reflect.String, k == reflect.Bool:
 		return true
